@@ -43,6 +43,13 @@ CHECKS = {
          "standards over generated keys/nonces/AAD/labels/lengths/chunkings; AEAD open() is attacked with exhaustive single-bit flips on a short message plus drawn mutations.",
          "references (vlib/refs) are validated at every run against FIPS/RFC vectors and the openssl CLI (selftest; failure = exit 2); functional equality only",
          "DESIGN.md §4 C09"),
+ "C10": ("exploration",
+         "property-based testing with independent verifiers (reference RSA verifier, openssl CLI), constructed non-canonical encodings, and fault injection into the victim's key object",
+         "Sign->verify round trips for RSA (PKCS#1 v1.5, PSS), ECDSA, EdDSA, DSA keys are cross-checked with an independent verifier; the negative space covers bit flips, other hash/scheme/key, RSA encodings constructed with the private key "
+         "(11 non-canonical variants), (r, s) edge values and DER malformations, non-canonical EdDSA S; FFDH/ECDH/X25519/X448 parties must agree and refuse 7+10 classes of invalid peer shares incl. the known low-order Montgomery points; "
+         "a FaultyKey wrapper corrupts the signature at every signing site of 13 handshake flavours and nothing signed may reach the wire.",
+         "ECDSA digests are truncated to the curve size as every call site does; a mutated signature accepted by the independent verifier is not counted as forgery",
+         "DESIGN.md §4 C10"),
  "C11": ("exploration",
          "differential property-based testing against a reference implicit-rejection decryption + wire-level metamorphic comparison through a deviant client",
          "Ciphertexts are built from chosen encoded messages (valid ones and 14 defect classes incl. every separator position, wrong version bytes, wrong lengths, publicly invalid inputs) and RSAKey.decrypt must equal the reference "
